@@ -79,3 +79,58 @@ def integrate_adaptive_1d(logp, a, b, tol=1e-7, order=10, init_panels=200, max_r
         bad = ~ok
         lo, hi, whole = np.concatenate([lo[bad], mid[bad]]), np.concatenate([mid[bad], hi[bad]]), np.concatenate([left[bad], right[bad]])
     return total + float(whole.sum())
+
+
+def integrate_adaptive_2d(logp, bounds, tol=1e-6, order=7, init_panels=40, max_rounds=14, max_cells=60000, dtype=None, chunk=250000, extra_edges=((), ())):
+    """Adaptive tensor-product Gauss-Legendre cubature on a rectangle for smooth integrands: a cell is
+    accepted when the rule on the cell and the sum over its four quarters agree; otherwise it is split.
+    logp: callable on an [N, 2] tensor returning [N] log densities.  Returns (integral, converged)."""
+    import torch
+
+    dtype = dtype or torch.float64
+    xs, ws = np.polynomial.legendre.leggauss(order)
+    X1, X2 = np.meshgrid(xs, xs, indexing="ij")
+    W = (ws[:, None] * ws[None, :]).reshape(-1)
+    n1, n2 = X1.reshape(-1), X2.reshape(-1)
+
+    def rule(lo, hi):
+        # lo, hi: [M, 2]
+        h = (hi - lo) / 2.0
+        m = (hi + lo) / 2.0
+        pts = np.stack([m[:, 0:1] + h[:, 0:1] * n1[None, :], m[:, 1:2] + h[:, 1:2] * n2[None, :]], axis=-1).reshape(-1, 2)
+        vals = np.empty(len(pts))
+        with torch.no_grad():
+            for i in range(0, len(pts), chunk):
+                vals[i : i + chunk] = torch.exp(logp(torch.tensor(pts[i : i + chunk], dtype=dtype)).double()).numpy()
+        return (vals.reshape(len(lo), -1) * W[None, :]).sum(1) * h[:, 0] * h[:, 1]
+
+    (a1, b1), (a2, b2) = bounds
+    e1 = np.linspace(a1, b1, init_panels + 1)
+    e2 = np.linspace(a2, b2, init_panels + 1)
+    # edges placed by the caller (geometrically around a suspected spike) join the initial grid
+    e1 = np.unique(np.concatenate([e1, np.array([e for e in extra_edges[0] if a1 < e < b1])]))
+    e2 = np.unique(np.concatenate([e2, np.array([e for e in extra_edges[1] if a2 < e < b2])]))
+    L1, L2 = np.meshgrid(e1[:-1], e2[:-1], indexing="ij")
+    H1, H2 = np.meshgrid(e1[1:], e2[1:], indexing="ij")
+    lo = np.stack([L1.reshape(-1), L2.reshape(-1)], 1)
+    hi = np.stack([H1.reshape(-1), H2.reshape(-1)], 1)
+    whole = rule(lo, hi)
+    area = (b1 - a1) * (b2 - a2)
+    total = 0.0
+    for _ in range(max_rounds):
+        mid = (lo + hi) / 2.0
+        q_lo = np.concatenate([lo, np.stack([mid[:, 0], lo[:, 1]], 1), np.stack([lo[:, 0], mid[:, 1]], 1), mid], 0)
+        q_hi = np.concatenate([mid, np.stack([hi[:, 0], mid[:, 1]], 1), np.stack([mid[:, 0], hi[:, 1]], 1), hi], 0)
+        q = rule(q_lo, q_hi).reshape(4, -1)
+        fine = q.sum(0)
+        cell = (hi[:, 0] - lo[:, 0]) * (hi[:, 1] - lo[:, 1])
+        ok = np.abs(fine - whole) <= tol * np.maximum(1e-4, cell / area)
+        total += float(fine[ok].sum())
+        if ok.all():
+            return total, True
+        bad = np.nonzero(~ok)[0]
+        if 4 * len(bad) > max_cells:
+            return total + float(fine[bad].sum()), False
+        sel = np.concatenate([bad + k * len(lo) for k in range(4)])
+        lo, hi, whole = q_lo[sel], q_hi[sel], q.reshape(-1)[sel]
+    return total + float(whole.sum()), False
